@@ -113,8 +113,30 @@ def run(ctx):
         else:
             t = make(md, rng, mode)
         n = t.n_atoms
-        trip = np.array([(i, i + 1, i + 2) for i in range(n - 2)] + [(2, 0, 5)])
-        quad = np.array([(i, i + 1, i + 2, i + 3) for i in range(n - 3)] + [(0, 2, 5, 7)])
+        # index lists: the chain walk, rows that share two or three atoms with the row before them in every alignment (torsions listed
+        # bond by bond over a branched molecule), repeated rows, random rows of distinct atoms
+        trip = [(i, i + 1, i + 2) for i in range(n - 2)] + [(2, 0, 5)]
+        quad = [(i, i + 1, i + 2, i + 3) for i in range(n - 3)] + [(0, 2, 5, 7)]
+        for _ in range(6):
+            q = quad[-1]
+            others = [a for a in range(n) if a not in q]
+            style = rng.randrange(6)
+            if style == 0:      # (a,b,c,d) -> (b,c,e,f)
+                e, f_ = rng.sample([a for a in range(n) if a not in (q[1], q[2])], 2); quad.append((q[1], q[2], e, f_))
+            elif style == 1:    # (a,b,c,d) -> (b,c,d,e)
+                quad.append((q[1], q[2], q[3], rng.choice(others)))
+            elif style == 2:    # (a,b,c,d) -> (c,d,e,f)
+                e, f_ = rng.sample(others, 2); quad.append((q[2], q[3], e, f_))
+            elif style == 3:    # same central bond, other ends
+                e, f_ = rng.sample(others, 2); quad.append((e, q[1], q[2], f_))
+            elif style == 4:
+                quad.append(q)
+            else:
+                quad.append(tuple(rng.sample(range(n), 4)))
+            t3 = trip[-1]
+            o3 = [a for a in range(n) if a not in t3]
+            trip.append([(t3[1], t3[2], rng.choice(o3)), (t3[2], rng.choice(o3), t3[0]), tuple(rng.sample(range(n), 3)), t3][rng.randrange(4)])
+        trip, quad = np.array(trip), np.array(quad)
         orth = mode == "ortho" and bool(np.allclose(t.unitcell_angles, 90))
         kind = "none" if mode == "none" else ("ortho" if orth else "tri")
         res = {}
